@@ -52,7 +52,7 @@ def _dominated_anchor(g, mod, call):
         if cur is None:
             return None
         t = mod.parent(cur)
-        n = g.node_of(t.body[0])
+        n = next((g.node_of(x) for x in t.body if g.node_of(x) is not None), None)
         cur = t
     return n
 
@@ -400,3 +400,72 @@ def retry_arm_publishes_before_teardown(chk, ctx):
         chk.ob("C03.R14", "handle_error: the retry event is published before the held branch events are released", bool(before) and not after, "",
                key="StateEngine.notify.handle_error | check_pending_results (acknowledges held events) runs before the retry event is published", where=se.line(t),
                message="a crash between the acknowledgements and the publish loses the execution: nothing is left unacknowledged or queued to resume it from")
+
+
+# =====================================================================================================================
+# Rules for three of the defects the round-7 hunters reported and that are NOT repaired (open findings D69-D71): each states what the sibling
+# code does and reports the sites that deviate.
+# =====================================================================================================================
+
+# C07.R10 (D69, open): the attempt count that is compared with a Retrier's MaxAttempts (and is the exponent of its BackoffRate) is that Retrier's own.
+# The States Language: "each Retrier keeps track of its own retry count"; its example waits 1, 2, 5 s where a shared counter waits 1, 2, 20 s.
+def retrier_counts_are_per_retrier(chk, ctx):
+    se = ctx.mod("state_engine")
+    he = se.func("StateEngine.notify.handle_error")
+    loops = [n for n in body_nodes(he) if isinstance(n, ast.For) and isinstance(n.iter, ast.Name) and n.iter.id == "retry"]
+    chk.floor("C07.R10", len(loops), 1, "retrier scans in handle_error")
+    for lp in loops:
+        targets = {x.id for x in ast.walk(lp.target) if isinstance(x, ast.Name)}
+        cmps = [c for s in lp.body for c in ast.walk(s) if isinstance(c, ast.Compare) and len(c.ops) == 1 and isinstance(c.ops[0], (ast.Lt, ast.LtE, ast.Gt, ast.GtE))
+                and any(isinstance(x, ast.Name) and x.id == "max_attempts" for x in ast.walk(c))]
+        chk.floor("C07.R10", len(cmps), 1, "comparisons with MaxAttempts")
+        for c in cmps:
+            other = [x for x in (c.left, c.comparators[0]) if not (isinstance(x, ast.Name) and x.id == "max_attempts")]
+            keyed = False
+            src = ""
+            for o in other:
+                defs = [d for d in name_defs(he, o.id) if isinstance(d, ast.Assign)] if isinstance(o, ast.Name) else []
+                exprs = [d.value for d in defs] or [o]
+                src = " / ".join(norm(e) for e in exprs)
+                # per-retrier: the count is looked up through the loop variable (retrier[...], counts[index], ...)
+                keyed = any(any(isinstance(x, ast.Name) and x.id in targets for x in ast.walk(e)) for e in exprs if not isinstance(e, ast.BinOp))
+            chk.ob("C07.R10", "the attempt count compared with a Retrier's MaxAttempts is that Retrier's own", keyed, src,
+                   key="StateEngine.notify.handle_error | the count compared with MaxAttempts (`%s`) is one counter for all Retriers of the state" % src, where=se.line(c),
+                   message="with two Retriers the second starts from the attempts the first used up: fewer retries than its MaxAttempts (possibly none: the Catcher is taken, or the "
+                           "execution fails) and a backoff exponent that is the total number of retries (the specification's own example waits 1, 2, 20 s instead of 1, 2, 5 s)")
+
+
+# C14.R7 (D70, open, one key per function): the type tests agree on a Variable that does not exist. asl_choice_IsBoolean refuses to match when the
+# Variable's path did not match (`not path_match_failed and ...`); its siblings test the placeholder value, so `Is<T>: false` MATCHES a missing field.
+def type_tests_agree_on_missing_variable(chk, ctx):
+    se = ctx.mod("state_engine")
+    fs = {q: f for q, f in se.funcs.items() if q.rsplit(".", 1)[-1].startswith("asl_choice_Is") and q.rsplit(".", 1)[-1] != "asl_choice_IsPresent"}
+    chk.floor("C14.R7", len(fs), 5, "type-test operators")
+    guarded = {q for q, f in fs.items() if any(isinstance(x, ast.Name) and x.id == "path_match_failed" for x in ast.walk(f.node))}
+    chk.floor("C14.R7", len(guarded), 1, "type tests that consult path_match_failed")
+    for q, f in sorted(fs.items()):
+        chk.ob("C14.R7", "%s does not match when the Variable's path did not match" % f.name, q in guarded, "",
+               key="%s | tests the placeholder of a missing Variable: `%s: false` matches a field that does not exist (IsBoolean does not)" % (q, f.name[len("asl_choice_"):]),
+               where=f.where(), message="a Choice rule on a missing Variable never matches (the specification; this project's own IsBoolean and every comparison operator): "
+                                        "`{Variable: $.x, IsString: false}` on input {} takes its Next")
+
+
+# C06.R11 (D71, open): no arm of notify fails the state (handle_error) for an event of a branch before the termination gate has been consulted:
+# a queued straggler of an already failed fan-out must be dropped, not allowed to end the execution a second time.
+def notify_fails_only_behind_the_gate(chk, ctx):
+    se = ctx.mod("state_engine")
+    nf = se.func("StateEngine.notify")
+    g = CFG(nf.node)
+    gates = [c for c in body_nodes(nf) if isinstance(c, ast.Call) and callname(c) == "self.branch_has_terminated"]
+    chk.floor("C06.R11", len(gates), 1, "termination gate calls in notify")
+    gns = [x for x in (g.containing_stmt_node(c, se) for c in gates) if x is not None]
+    calls = [c for c in body_nodes(nf) if isinstance(c, ast.Call) and callname(c) == "handle_error"]
+    chk.floor("C06.R11", len(calls), 3, "handle_error calls at the top level of notify")
+    for c in calls:
+        cn = _dominated_anchor(g, se, c)
+        ok = cn is not None and any(g.dominates(gn, cn) for gn in gns)
+        arm = [norm(i.test)[:60] for i, a in enclosing_ifs(se, c, nf.node)]
+        chk.ob("C06.R11", "notify: handle_error under `%s` runs behind the termination gate" % (arm[0] if arm else "-"), ok, "",
+               key="StateEngine.notify | handle_error under `%s` is reached before the termination gate" % (arm[0] if arm else "-"), where=se.line(c),
+               message="an event of a terminated branch whose state cannot be found (dangling Next; a definition updated while the event was queued) fails the fan-out and ends the "
+                       "already FAILED execution a second time: two ExecutionFailed events, two notifications, the recorded error overwritten")
